@@ -81,8 +81,8 @@ RLast(r) == CASE r.k = "I" -> r.w[16] [] r.k = "H" -> 208 [] r.k = "S" -> 209 []
 
 \* ------------------------------------------------ allocator-facing context
 \* c = [bt, k, a, ra, d, ok, inj, nb]: buffer table, requests issued so far,
-\* successful allocs / reallocs / deallocs, still-ok flag, "an injected
-\* failure fired", id of the buffer allocated last
+\* successful allocs / reallocs / deallocs, still-ok flag, "the allocator
+\* refused a request" (injected or above the limit), id of the buffer allocated last
 Ctx0(bt) == [bt |-> bt, k |-> 0, a |-> 0, ra |-> 0, d |-> 0, ok |-> TRUE, inj |-> FALSE, nb |-> 0]
 FreeBufOf(bt) == CHOOSE b \in B : ~bt[b].live /\ \A y \in B : (~bt[y].live) => b <= y
 HasFreeBuf(bt) == \E b \in B : ~bt[b].live
@@ -92,7 +92,7 @@ Alloc(c, f, t, cap) ==
   IF cap = TOOLONG \/ cap = OVERFLOW THEN [c EXCEPT !.ok = FALSE]
   ELSE LET k1 == c.k + 1 IN
        IF cap = BIG \/ k1 \in f
-       THEN [c EXCEPT !.ok = FALSE, !.k = k1, !.inj = (c.inj \/ k1 \in f)]
+       THEN [c EXCEPT !.ok = FALSE, !.k = k1, !.inj = TRUE]
        ELSE LET b == FreeBufOf(c.bt) IN
             [c EXCEPT !.k = k1, !.a = c.a + 1, !.nb = b, !.bt = [c.bt EXCEPT ![b] = NewBuf(t, cap)]]
 
@@ -102,7 +102,7 @@ Realloc(c, f, b, newcap) ==
   IF newcap = TOOLONG \/ newcap = OVERFLOW THEN [c EXCEPT !.ok = FALSE]
   ELSE LET k1 == c.k + 1 IN
        IF newcap = BIG \/ k1 \in f
-       THEN [c EXCEPT !.ok = FALSE, !.k = k1, !.inj = (c.inj \/ k1 \in f)]
+       THEN [c EXCEPT !.ok = FALSE, !.k = k1, !.inj = TRUE]
        ELSE [c EXCEPT !.k = k1, !.ra = c.ra + 1,
                       !.bt = [c.bt EXCEPT ![b] = [c.bt[b] EXCEPT !.cap = newcap, !.data = Resize(c.bt[b].data, newcap)]]]
 
